@@ -53,6 +53,14 @@ pub const DISTINCT_CAP: usize = 4_000_000;
 
 static TOLERATED: std::sync::OnceLock<BTreeSet<String>> = std::sync::OnceLock::new();
 
+/// Tier in which `Mode::Replay` runs (worlds may size sweeps by tier): set by the driver from the
+/// batch's tier or the trace's recorded tier.
+pub static REPLAY_TIER_THOROUGH: std::sync::atomic::AtomicBool = std::sync::atomic::AtomicBool::new(false);
+
+pub fn set_replay_tier(tier: Tier) {
+    REPLAY_TIER_THOROUGH.store(tier == Tier::Thorough, std::sync::atomic::Ordering::Relaxed);
+}
+
 /// Signatures of recorded known findings (kind "known") that a world may step over so that a
 /// run continues past them. Set once by the driver; empty if never set.
 pub fn set_tolerated_signatures(s: BTreeSet<String>) {
@@ -132,7 +140,14 @@ impl<'a, S: Clone> Steps<'a, S> {
     pub fn tier(&self) -> Tier {
         match &self.mode {
             Mode::Generate { tier, .. } => *tier,
-            Mode::Replay(_) => Tier::Quick,
+            // a replay runs in the tier of the batch / trace it belongs to (set by the driver)
+            Mode::Replay(_) => {
+                if REPLAY_TIER_THOROUGH.load(std::sync::atomic::Ordering::Relaxed) {
+                    Tier::Thorough
+                } else {
+                    Tier::Quick
+                }
+            }
         }
     }
     /// `gen` returns None when the generator wants to end the run.
